@@ -154,12 +154,24 @@ pub fn generate(seed: u64, n: usize, thorough: bool) -> Cases {
                     continue;
                 }
                 let np = if r.chance(1, 2) { key_path(&mut r, &l) } else { gen_path(&mut r, 1, 4) };
-                let src = format!("local _ = {}\n", np.join("."));
+                // the same path read plainly, with the rest of an expression hanging off it, through bracket strings, or as the
+                // receiver path of a method call (the last segment is then the method's name)
+                let form = r.below(6);
+                let src = match form {
+                    0 if np.len() >= 2 => format!("local _ = {}(1).tail\n", np.join(".")),
+                    1 if np.len() >= 2 => format!("local _ = {}(1):tail().more\n", np.join(".")),
+                    3 if np.len() >= 2 => format!("local _ = {}:{}()\n", np[..np.len() - 1].join("."), np[np.len() - 1]),
+                    _ => format!("local _ = {}\n", np.join(".")),
+                };
                 if let Some(ds) = lint(&l, &src) {
                     let v = ds.iter().find(|(s, _)| *s == 10).map(|(_, m)| verdict_of(m)).unwrap_or("VOk");
+                    if v == "VOther" {
+                        // a complaint about the call itself (arguments, `.` against `:`): C05's subject, not a lookup verdict
+                        continue;
+                    }
                     cases.push(
                         format!("CRead {} {} {}", glib(&l), glist(np.iter(), |s| gstr(s)), v),
-                        json!({"kind": "read", "lib": serde_yaml::to_string(&l).unwrap_or_default(), "source": src, "verdict": v}),
+                        json!({"kind": "read", "form": form, "lib": serde_yaml::to_string(&l).unwrap_or_default(), "source": src, "verdict": v}),
                     );
                 }
             }
